@@ -190,6 +190,20 @@ CHECKS["C10"] = dict(
          "only if DictAbs accepts it with exactly that finding's key collisions added. d@k and 1 vs 1.0 keys are not enumerated.",
     design_ref="DESIGN.md section 5 C10")
 
+CHECKS["C09"] = dict(
+    technique="TLA+ monitor of the interpreter as a dictionary of names (data / Python callable / Klong function), per-callable invocation "
+              "counters and Python-side handles (PyAbs.tla); PyGen.tla generates interop histories with the prescribed logs and results "
+              "(TLC: exhaustive tree + -simulate); every history executed by a real KlongInterpreter with instrumented callables, the "
+              "recorded invocation logs and results validated by TLC (PyTrace.tla)",
+    text="All histories of 3 (thorough 4) operations on one name and seeded histories of 8 operations on two names: store/read data, store "
+         "callables of 8 signature shapes (arity 0..3, with/without a leading klong), apply them directly, through @, projections, Each, "
+         "Over and from Python; define/redefine/delete Klong functions of 12 bodies (arity 0..3), call klong[name] with 0..3 arguments and "
+         "name(a;b;c): each application must invoke the callable exactly once per application with exactly the evaluated arguments "
+         "and return its value; the handle must follow redefinition, agree with the Klong call and reject a wrong argument count.",
+    note="Trusted: TLC, the instrumented callables. Parameter orders other than x,y,z, .py/.pyf import remapping and handles after "
+         "deletion are not judged.",
+    design_ref="DESIGN.md section 5 C09")
+
 NOT_YET = {}
 
 
